@@ -781,6 +781,10 @@ func (p *InlineParser) parseEndBracket(state *inlineState, start int) (end int) 
 	// Attempt as inline link first,
 	// but fall back to shortcut reference link below.
 	if start+1 < state.spanEnd() && state.source[start+1] == '(' {
+		// parseInlineLink advances state.unparsedPos past the link on success,
+		// but the destination and title text below must be read
+		// starting from the line that holds the opening parenthesis.
+		unparsed := state.unparsed[state.unparsedPos:]
 		if info := p.parseInlineLink(state, start+1); info.span.IsValid() {
 			linkNode := state.wrap(kind, state.stack[openDelimIndex].node, nil)
 			linkNode.span = Span{
@@ -793,7 +797,7 @@ func (p *InlineParser) parseEndBracket(state *inlineState, start int) (end int) 
 					span: info.destination.span,
 				}
 				if info.destination.text.IsValid() {
-					r := newInlineByteReader(state.source, state.unparsed[state.unparsedPos:], info.destination.text.Start)
+					r := newInlineByteReader(state.source, unparsed, info.destination.text.Start)
 					collectLinkAttributeText(destNode, r, info.destination.text.End)
 				}
 				linkNode.children = append(linkNode.children, destNode)
@@ -804,7 +808,7 @@ func (p *InlineParser) parseEndBracket(state *inlineState, start int) (end int) 
 					span: info.title.span,
 				}
 				if info.title.text.IsValid() {
-					r := newInlineByteReader(state.source, state.unparsed[state.unparsedPos:], info.title.text.Start)
+					r := newInlineByteReader(state.source, unparsed, info.title.text.Start)
 					collectLinkAttributeText(destNode, r, info.title.text.End)
 				}
 				linkNode.children = append(linkNode.children, destNode)
